@@ -153,8 +153,19 @@ let handle (p : string) : string =
        | None -> "ok=0" | Some (a, p) -> Printf.sprintf "ok=1;a=%s;p=%s" (hx a) (string_of_n p))
   (* IPv6 text belongs to libc entirely: the theorem c20_ipv6_wrapper says the OLA wrapper is
      the libc function guarded by the empty-text check; the harness reports whether it is. *)
-  | ["ip6"; _] -> "wrap=1;class=ip6"
-  | ["ip6v"; _] -> "rt=1;wrap=1;class=ip6v"
+  | ["ip6"; h] ->
+    let t = txt h in
+    let raw = match ipv6_of_text (cstr t) with None -> "none" | Some a -> hx a in
+    (match ipv6_from_string t with
+     | None -> Printf.sprintf "lraw=%s;ok=0;class=ip6:reject" raw
+     | Some a -> Printf.sprintf "lraw=%s;ok=1;a=%s;s=%s;class=ip6:accept%s" raw (hx a) (hx (ipv6_to_text a))
+                   (if v4_form (words_of_bytes a) then "-v4" else ""))
+  | ["ip6v"; h] ->
+    let a = txt h in
+    let s = ipv6_to_text a in
+    Printf.sprintf "s=%s;lt6=%s;%s;class=ip6v:len%d%s" (hx s) (hx s)
+      (match ipv6_from_string s with None -> "ok=0" | Some b -> "ok=1;a=" ^ hx b) (List.length s)
+      (if v4_form (words_of_bytes a) then "-v4" else "")
   | ["cid"; h] ->
     let t = txt h in
     let a = cid_from_string uuid_parse t in
@@ -186,6 +197,7 @@ let handle (p : string) : string =
       | "dmx", [h] -> Some (dmx_to_string (txt h))
       | "ip4", [h] -> Some (ipv4_to_string inet_ntop4 (txt h))
       | "sa", [h; port] -> Some (sockaddr_to_string inet_ntop4 (txt h, n_of_string port))
+      | "ip6", [h] -> Some (ipv6_to_text (txt h))
       | _ -> None in
     let cls = Printf.sprintf ";class=strm-%s:adj%s-base%s-w%s" ty adj base (if w = "0" then "0" else "n") in
     (match text with
@@ -199,4 +211,4 @@ let handle (p : string) : string =
     Printf.sprintf "n=%d;t=%s;class=split" (List.length toks) (String.concat "," (List.map hx toks))
   | ["trim"; h] -> Printf.sprintf "t=%s;class=trim" (hx (string_trim (txt h)))
   | _ -> "bad-op"
-let () = vh_run handle
+let () = vh_run (fun p -> handle p ^ ";exc=0")
